@@ -294,7 +294,10 @@ pub fn enabled_actions<S: Scenario>(scn: &S, w: &World, x: &S::X, h: &[Action]) 
 }
 
 pub fn apply_action<S: Scenario>(scn: &S, w: &mut World, x: &mut S::X, a: &Action) -> Result<(), String> {
-    w.begin_step();
+    // poll / drop / complete / tick open a new step themselves
+    if matches!(a, Action::Arrive(..) | Action::Ctl(_)) {
+        w.begin_step();
+    }
     match a {
         Action::Arrive(c, var) => {
             let c = *c as usize;
